@@ -322,7 +322,7 @@ PROPS["C12"] = {
 PROPS["C08"] = {
     "title": "Curve fitting returns a connected chain within the error bound",
     "gen_modules": ["Basis", "Fit"],
-    "props_modules": ["C08", "C08Error"],
+    "props_modules": ["C08", "C08Error", "C08Cubic"],
     "corr_n": (3000, 60000),
     "search_n": (300, 6000),
     "technique": "Lean 4 theorems about fit_curve's block loop, max_points_to_fit, fit_line and newton_raphson_root_find translated from fit.rs on every run, and about a recursion skeleton of fit_curve_cubic "
@@ -334,9 +334,12 @@ PROPS["C08"] = {
                   "accept-and-split policy (fitCubic_chain, fit_curve_fitCubic_chain); fit_line interpolates its end points; newton_raphson_root_find returns a parameter in [0,1] and keeps exact hits fixed "
                   "(newton_in_unit, newton_fixed_at_hit_*: repair F10). accepted_within_error (Props/C08Error): max_error_for_curve's per-sample closure and selection loop are translated, "
                   "and whatever candidate fit_curve_cubic accepts (reported error <= max_error) has every sample within max_error of the curve point at that sample's parameter, for any monotone "
-                  "square root - with newton_in_unit that parameter is in [0,1]. NOT proved: the quality of generate_bezier's least squares (how often a candidate is accepted, i.e. how many "
+                  "square root - with newton_in_unit that parameter is in [0,1]. cubic_body_cases / returned_curve_within_error (Props/C08Cubic): the WHOLE body of fit_curve_cubic is translated (clamp, line, initial fit, "
+                  "re-parameterisation loop with break, acceptance, split with both self-calls; the numeric helpers are parameters): for any helpers it returns the line, or ONE curve generated from some "
+                  "parameters whose error measured FOR THAT CURVE is within the clamped tolerance (the curve returned is the curve measured), or the two recursive fits sharing points[split]. "
+                  "NOT proved: the quality of generate_bezier's least squares (how often a candidate is accepted, i.e. how many "
                   "curves are returned); the search checks every sample within max_error of the chain by dense sampling + refinement, chain connected bit-exactly, ends exact.",
-    "level_note": "fit_curve_cubic's numeric kernel (generate_bezier, chord_length_parameterize, reparameterize) is modelled only as an arbitrary accept/split policy. " + COMMON_NOTE,
+    "level_note": "fit_curve_cubic's numeric kernel (generate_bezier, chords_for_points, reparameterize, tangent_between) is a parameter of the theorems; Model/Fit.lean's skeleton is kept for the chain theorems. " + COMMON_NOTE,
     "rule": "corr: number of points 0..5000 (all small n, random large n): (start, length) of every block the implementation fits (observed through the joints of the returned chain for a fitter-independent "
             "polyline input) vs the generated loop. search: sample sets from lines, arcs, noisy curves, duplicates, collinear runs, 2..2000 points, max_error 0.01..10: chain connectivity, end points, "
             "sample distance. Non-trivial: more than one curve returned; distinct by input.",
